@@ -392,7 +392,9 @@ impl<'a, const D: usize> Rdp<'a, D> {
             }
         }
 
-        if max_dist > self.tol {
+        // Coincident end points (a closed ring) are always split at the farthest vertex, otherwise
+        // a tolerance larger than the ring would collapse it to a single point
+        if max_dist > self.tol || (len_sq == 0.0 && max_dist > 0.0) {
             self.simplify(i0, max_i);
             self.simplify(max_i, i1);
         }
